@@ -734,7 +734,7 @@ def inject_error(rng, node, kind=None):
     elif kind == "nul-in-text":
         texts.insert(at, "a\x00b")
     elif kind == "bad-numeric-ref":
-        texts.insert(at, rng.choice(["&#0;", "&#x80;", "&#xD800;", "&#x110000;", "&#xFFFE;", "&#1;", "&#65", "&#x41 "]))
+        texts.insert(at, rng.choice(["&#0;", "&#x80;", "&#xD800;", "&#x110000;", "&#xFFFE;", "&#1;", "&#65 ", "&#x41 "]))
     elif kind == "unknown-named-ref":
         texts.insert(at, rng.choice(["&bogusname;", "&amp", "&notit;"]) + " ")
     elif kind == "abrupt-comment":
